@@ -7,6 +7,8 @@ package interp
 import (
 	"fmt"
 	"go/types"
+	"sync"
+	"time"
 
 	"golang.org/x/tools/go/ssa"
 )
@@ -31,6 +33,8 @@ type scheduler struct {
 	mainAbort   any
 	hasAbort    bool
 	log         []string
+	live        sync.WaitGroup // host goroutines of this path
+	dead        bool           // path over: nobody may touch the solver any more
 }
 
 func (r *pathRun) scheduler() *scheduler {
@@ -59,6 +63,9 @@ func (s *scheduler) enabled() []*goroutine {
 
 // pick chooses the next goroutine among en (len(en) >= 1).
 func (s *scheduler) pick(en []*goroutine, why string) *goroutine {
+	if s.dead {
+		panic(goexitPanic{killed: true})
+	}
 	if len(en) == 1 {
 		return en[0]
 	}
@@ -68,6 +75,9 @@ func (s *scheduler) pick(en []*goroutine, why string) *goroutine {
 			curEnabled = true
 		}
 	}
+	if d := s.r.eng.cfg.Delays; d > 0 {
+		return s.pickDelayed(en, why, d, curEnabled)
+	}
 	bound := s.r.eng.Opts.Preemptions
 	if s.r.eng.cfg.Preemptions > 0 {
 		bound = s.r.eng.cfg.Preemptions
@@ -75,14 +85,47 @@ func (s *scheduler) pick(en []*goroutine, why string) *goroutine {
 	if curEnabled && s.preemptions >= bound {
 		return s.cur
 	}
-	v := s.r.freshVar("sched", 8)
-	s.r.assumeRange(v, 0, uint64(len(en)-1))
-	i := int(s.r.concInt(sym{v, types.Uint8}, "schedule:"+why))
+	i := s.r.choice("sched", len(en), "schedule:"+why)
 	g := en[i]
 	if curEnabled && g != s.cur {
 		s.preemptions++
 	}
 	return g
+}
+
+// pickDelayed implements delay-bounded scheduling (Emmi, Qadeer, Rakamaric,
+// POPL 2011): the default scheduler is deterministic (keep running the current
+// goroutine; when it blocks or exits continue round-robin with the next id) and
+// a schedule may deviate from it by skipping goroutines in that round-robin
+// order at most `bound` times in total.
+func (s *scheduler) pickDelayed(en []*goroutine, why string, bound int, curEnabled bool) *goroutine {
+	// en is in id order; rotate so that the default choice comes first
+	start := 0
+	if !curEnabled {
+		for k, g := range en {
+			if g.id > s.cur.id {
+				start = k
+				break
+			}
+		}
+	} else {
+		for k, g := range en {
+			if g == s.cur {
+				start = k
+			}
+		}
+	}
+	order := append(append([]*goroutine{}, en[start:]...), en[:start]...)
+	max := bound - s.preemptions
+	if max > len(order)-1 {
+		max = len(order) - 1
+	}
+	if max <= 0 {
+		return order[0]
+	}
+	i := s.r.choice("sched", max+1, "schedule:"+why)
+	s.preemptions += i
+	return order[i]
 }
 
 // switchTo hands control to g and parks the current goroutine until resumed.
@@ -183,7 +226,9 @@ func spawn(fr *frame, instr *ssa.Go, fn value, args []value) {
 	g := &goroutine{id: len(s.gs), wake: make(chan bool, 1)}
 	s.gs = append(s.gs, g)
 	i := fr.i
+	s.live.Add(1)
 	go func() {
+		defer s.live.Done()
 		if !<-g.wake {
 			g.done = true
 			return
@@ -239,6 +284,7 @@ func (s *scheduler) finishMain() {}
 
 // killAll terminates every parked goroutine of the path.
 func (s *scheduler) killAll() {
+	s.dead = true
 	for _, g := range s.gs[1:] {
 		if !g.done {
 			select {
@@ -246,6 +292,14 @@ func (s *scheduler) killAll() {
 			default:
 			}
 		}
+	}
+	// wait until they are gone: the next path reuses this worker's solver
+	ch := make(chan struct{})
+	go func() { s.live.Wait(); close(ch) }()
+	select {
+	case <-ch:
+	case <-time.After(10 * time.Second):
+		s.r.eng.engineError("goroutines of a finished path did not terminate")
 	}
 }
 
@@ -412,9 +466,7 @@ func doSelect(fr *frame, instr *ssa.Select) value {
 	if len(rs) > 0 {
 		i := 0
 		if len(rs) > 1 {
-			v := r.freshVar("select", 8)
-			r.assumeRange(v, 0, uint64(len(rs)-1))
-			i = int(r.concInt(sym{v, types.Uint8}, "select-choice"))
+			i = r.choice("select", len(rs), "select-choice")
 		}
 		chosen = rs[i]
 	}
@@ -448,4 +500,24 @@ func doSelect(fr *frame, instr *ssa.Select) value {
 		}
 	}
 	return res
+}
+
+// choice draws an internal nondeterministic value in [0,n): a scheduling,
+// select or map-order decision. It is a solver variable like any input and is
+// recorded with the inputs, so that a concrete re-execution follows exactly the
+// schedule of the counterexample.
+func (r *pathRun) choice(name string, n int, why string) int {
+	if n <= 1 {
+		return 0
+	}
+	if v, ok := r.nextReplay(name); ok {
+		if v.Int < 0 || int(v.Int) >= n {
+			r.abort("unsupported", fmt.Sprintf("concrete replay: choice %q = %d outside [0,%d)", name, v.Int, n))
+		}
+		return int(v.Int)
+	}
+	v := r.freshVar(name, 8)
+	r.assumeRange(v, 0, uint64(n-1))
+	r.record(name, "choice", []*Term{v})
+	return int(r.concInt(sym{v, types.Uint8}, why))
 }
